@@ -126,7 +126,7 @@ func (c18Sink) Info(_ int, msg string, _ ...interface{}) {
 // ---- operations ----
 
 type c18Op struct {
-	Kind string `json:"kind"` // sub | add | rem | close | ev | tick | addwin | remwin | subu | reveal | clsub
+	Kind string `json:"kind"` // sub | add | rem | close | ev | tick | addwin | remwin | subu | reveal | clsub | tickrem
 	R    int    `json:"r,omitempty"`
 	S    int    `json:"s,omitempty"`
 	H    int    `json:"h,omitempty"`
@@ -139,6 +139,9 @@ type c18Op struct {
 	// clsub = close(S) and sub(R) issued at the same time from two goroutines;
 	// Pin: the closing goroutine is held at the factory's "Stopping shared informer" line
 	Pin bool `json:"pin,omitempty"`
+	// tickrem = add(S,H) with an own resync period of PeriodMs, the handler is then
+	// held inside the first object of a PERIODIC resync while rem(S) is called
+	PeriodMs int `json:"period_ms,omitempty"`
 }
 
 func (o c18Op) String() string {
@@ -168,6 +171,8 @@ func (o c18Op) String() string {
 		return fmt.Sprintf("reveal(r%d)", o.R)
 	case "clsub":
 		return fmt.Sprintf("close(s%d)||sub(r%d)[pin=%v]", o.S, o.R, o.Pin)
+	case "tickrem":
+		return fmt.Sprintf("tickrem(addown(s%d,h%d,%dms),rem(s%d))", o.S, o.H, o.PeriodMs, o.S)
 	}
 	return "?"
 }
@@ -560,6 +565,9 @@ func (rn *c18Runner) do(_ int, op c18Op) {
 	case "clsub":
 		rn.closeVsSubscribe(op)
 		return
+	case "tickrem":
+		rn.tickRemove(op)
+		return
 	case "reveal":
 		if !rn.w.reveal(op.R) {
 			rn.goErrs = append(rn.goErrs, fmt.Sprintf("resource %d never appeared in discovery", op.R))
@@ -918,6 +926,90 @@ func (rn *c18Runner) closeVsSubscribe(op c18Op) {
 	w.factory.mutex.Unlock()
 	if ref != 1 {
 		rn.anoms = append(rn.anoms, 1)
+	}
+}
+
+// tickRemove: a handler is added through subscription S with its own resync
+// period; after the add (and its replay) returned, the handler is held, by a
+// channel, inside the FIRST object of the next periodic resync of its timer.
+// While it is there RemoveEventHandlers() of S is called from another goroutine.
+// On a tree where the removal waits for the timer goroutine it can only return
+// after the handler was released (the harness releases it once it has seen, for
+// a bounded time, that the removal does not return); the rest of that resync
+// then arrives BEFORE the removal returns. Whatever the handlers of S receive
+// after the removal has returned is the content of the RemoveHandlers step,
+// marked as a window (clause event-delivered-after-removal-returned).
+func (rn *c18Runner) tickRemove(op c18Op) {
+	w := rn.w
+	period := time.Duration(op.PeriodMs) * time.Millisecond
+	stAdd := c18Step{op: c18Op{Kind: "add", S: op.S, H: op.H, Own: true}}
+	stRem := c18Step{op: c18Op{Kind: "rem", S: op.S}}
+	entered, release, remDone := make(chan struct{}), make(chan struct{}), make(chan struct{})
+	var armed int32
+	var once sync.Once
+	rn.rec.mu.Lock()
+	rn.rec.lateFor = op.S
+	atomic.StoreInt32(&rn.rec.returned, 0)
+	rn.rec.park = func(d c18Del) {
+		if d.kind == 'S' && d.sub == op.S && d.h == op.H && atomic.LoadInt32(&armed) == 1 {
+			parked := false
+			once.Do(func() { parked = true })
+			if parked {
+				close(entered)
+				<-release
+			}
+		}
+	}
+	rn.rec.mu.Unlock()
+	rn.guarded(&stAdd, func() {
+		rn.subs[op.S].Informer().AddEventHandlerWithResyncPeriod(rn.rec.handler(op.S, op.H), period)
+	})
+	atomic.StoreInt32(&armed, 1) // the add-time replay is over: the next resync is a tick
+	inWindow := false
+	select {
+	case <-entered:
+		inWindow = true
+	case <-time.After(2 * time.Second):
+		stAdd.issues = append(stAdd.issues, "tick-never-came") // empty cache
+	}
+	go func() {
+		defer close(remDone)
+		rn.guarded(&stRem, func() { rn.subs[op.S].Informer().RemoveEventHandlers() })
+		atomic.StoreInt32(&rn.rec.returned, 1)
+	}()
+	if inWindow {
+		// a removal that does not wait for the resync in progress returns now
+		select {
+		case <-remDone:
+		case <-time.After(25 * time.Millisecond):
+		}
+	}
+	close(release)
+	<-remDone
+	wait := 3 * period // a timer that survived the removal would fire now
+	if wait < 3*c18TickPeriod {
+		wait = 3 * c18TickPeriod
+	}
+	time.Sleep(wait)
+	rn.rec.mu.Lock()
+	rn.rec.park = nil
+	rn.rec.lateFor = -1
+	rn.rec.mu.Unlock()
+	for _, d := range rn.rec.take() {
+		if d.late {
+			stRem.dels = append(stRem.dels, d)
+		} else {
+			stAdd.dels = append(stAdd.dels, d)
+		}
+	}
+	for r := 0; r < w.nres; r++ {
+		stAdd.watch = append(stAdd.watch, w.watchCount(r))
+		stAdd.lists = append(stAdd.lists, w.listCount(r))
+	}
+	stRem.watch, stRem.lists = stAdd.watch, stAdd.lists
+	rn.steps = append(rn.steps, stAdd, stRem)
+	if inWindow {
+		rn.windows = append(rn.windows, len(rn.steps)-1)
 	}
 }
 
@@ -1350,6 +1442,36 @@ func c18UnknownSpec(r *vh.Rng, seed uint64) c18Spec {
 		g.actorMove(0, 4, 0)
 	}
 	return g.spec("unknown-resource", seed)
+}
+
+// tick-removal family: nobj (>= 3) objects are cached; subscriber `who` adds a
+// handler with its own short resync period, which is held in the first object
+// of a periodic resync while its subscription removes its handlers. With or
+// without a second subscriber (with a plain handler) on the same informer.
+// Afterwards the removed handler must stay silent and a new one must work.
+func c18TickRemoveSpec(periodMs, nobj, who int, second bool) c18Spec {
+	ops := []c18Op{{Kind: "sub", R: 0}}
+	nsub := 1
+	if second || who == 1 {
+		ops = append(ops, c18Op{Kind: "sub", R: 0})
+		nsub = 2
+	}
+	for o := 0; o < nobj; o++ {
+		ops = append(ops, c18Op{Kind: "ev", R: 0, EK: "ADDED", O: o})
+	}
+	h := 0
+	if second {
+		ops = append(ops, c18Op{Kind: "add", S: 1 - who, H: h})
+		h++
+	}
+	ops = append(ops, c18Op{Kind: "tickrem", S: who, H: h, PeriodMs: periodMs},
+		c18Op{Kind: "ev", R: 0, EK: "MODIFIED", O: 0},
+		c18Op{Kind: "add", S: who, H: h + 1},
+		c18Op{Kind: "ev", R: 0, EK: "DELETED", O: 1})
+	for s := 0; s < nsub; s++ {
+		ops = append(ops, c18Op{Kind: "close", S: s})
+	}
+	return c18Spec{NRes: 1, Ops: ops, Stream: "tick-removal", Features: []string{"tick-removal", "own-timer", "tick-after-remove"}}
 }
 
 // close-vs-subscribe family: the last subscriber closes while another controller
@@ -1901,6 +2023,24 @@ func TestVerif_C18(t *testing.T) {
 		}
 		for i := 0; i < unpinned; i++ {
 			push(fmt.Sprintf("cu%d", i), c18CloseVsSubscribeSpec(i, false))
+		}
+		// tick-removal family (both tiers): RemoveEventHandlers() while a periodic resync is parked
+		trounds := 2
+		if env.Tier == "thorough" {
+			trounds = 8
+		}
+		tn := 0
+		for round := 0; round < trounds; round++ {
+			for _, periodMs := range []int{1, 3} {
+				for _, nobj := range []int{3, 4} {
+					for who := 0; who < 2; who++ {
+						for _, second := range []bool{false, true} {
+							push(fmt.Sprintf("tr%d", tn), c18TickRemoveSpec(periodMs, nobj, who, second))
+							tn++
+						}
+					}
+				}
+			}
 		}
 		// replay-window leg (both tiers): an object appears while a handler is
 		// inside its add-time replay; window in the first / a middle / the last callback
